@@ -224,9 +224,8 @@ func (c *ColumnImage) UnmarshalJSON(data []byte) error {
 
 	if value != nil {
 		switch JDBCType(columnType) {
-		case JDBCTypeReal: // 4 Bytes
-			actualValue = value.(float32)
-		case JDBCTypeDecimal, JDBCTypeDouble: // 8 Bytes
+		case JDBCTypeReal, JDBCTypeDecimal, JDBCTypeDouble:
+			// encoding/json decodes every number into float64 (the row scanner yields float64 for these columns too)
 			actualValue = value.(float64)
 		case JDBCTypeTinyInt: // 1 Bytes
 			actualValue = int8(value.(float64))
